@@ -48,6 +48,7 @@ type Scenario struct {
 	EstDelayMs     int               `json:"est_delay_ms"`
 	HandlerDelayMs int               `json:"handler_delay_ms"`
 	CapsDelayMs    int               `json:"caps_delay_ms"`
+	FirstOnly      bool              `json:"first_only"` // plugin script (on_open, handler, delays) applies to the first session only
 }
 
 type Msg struct {
@@ -114,7 +115,11 @@ type plugin struct {
 	sc      *Scenario
 	run     *runner
 	nUpdate atomic.Int32
+	nOpen   atomic.Int32
+	nEst    atomic.Int32
 }
+
+func (p *plugin) scripted(n int32) bool { return !p.sc.FirstOnly || n <= 1 }
 
 func (p *plugin) log(name, ph, arg string) {
 	p.run.mu.Lock()
@@ -157,6 +162,9 @@ func (p *plugin) OnOpenMessage(_ bgp.PeerConfig, id netip.Addr, caps []bgp.Capab
 	}
 	p.log("OnOpenMessage", "enter", sb.String())
 	defer p.log("OnOpenMessage", "exit", "")
+	if !p.scripted(p.nOpen.Add(1)) {
+		return nil
+	}
 	if p.sc.OnOpenDelayMs > 0 {
 		time.Sleep(time.Duration(p.sc.OnOpenDelayMs) * time.Millisecond)
 	}
@@ -166,7 +174,8 @@ func (p *plugin) OnOpenMessage(_ bgp.PeerConfig, id netip.Addr, caps []bgp.Capab
 func (p *plugin) OnEstablished(_ bgp.PeerConfig, w bgp.UpdateMessageWriter) bgp.UpdateMessageHandler {
 	p.log("OnEstablished", "enter", "")
 	p.nUpdate.Store(0)
-	if p.sc.EstDelayMs > 0 {
+	scripted := p.scripted(p.nEst.Add(1))
+	if scripted && p.sc.EstDelayMs > 0 {
 		time.Sleep(time.Duration(p.sc.EstDelayMs) * time.Millisecond)
 	}
 	p.run.mu.Lock()
@@ -188,6 +197,9 @@ func (p *plugin) OnEstablished(_ bgp.PeerConfig, w bgp.UpdateMessageWriter) bgp.
 		p.run.mu.Unlock()
 		p.log("Handler", "enter", hex.EncodeToString(u))
 		defer p.log("Handler", "exit", "")
+		if !scripted {
+			return nil
+		}
 		if p.sc.HandlerDelayMs > 0 {
 			time.Sleep(time.Duration(p.sc.HandlerDelayMs) * time.Millisecond)
 		}
@@ -542,6 +554,16 @@ func (r *runner) step(st []any) error {
 			go func() { defer r.wg.Done(); wg.Wait() }()
 		} else {
 			wg.Wait()
+		}
+	case "drain": // forget outbound connections the remote has not looked at yet
+		for {
+			select {
+			case c := <-r.accepted:
+				c.Close()
+				continue
+			default:
+			}
+			break
 		}
 	case "refuse":
 		r.refuse.Store(st[1].(bool))
